@@ -167,6 +167,9 @@ func (s *Sim) curBase() *mqtt.BaseClient {
 // connecting reports whether some BaseClient is inside Connect (holding its
 // connect mutex) as far as the harness can tell.
 func (s *Sim) anyConnecting() bool {
+	if s.connAckParked.Load() > 0 {
+		return true
+	}
 	s.mu.Lock()
 	defer s.mu.Unlock()
 	for _, c := range s.conns {
@@ -297,6 +300,9 @@ func (s *Sim) releaseOp(i int) {
 }
 
 func (s *Sim) baseConnecting(cli int) bool {
+	if s.connAckParked.Load() > 0 {
+		return true
+	}
 	c := s.conn(cli + 1)
 	if c == nil {
 		return false
